@@ -4,9 +4,9 @@ package PKG
 // values are strings, numbers, booleans or one nested flat object; strings are un-escaped.
 
 type c14KV struct {
-	key string
-	str []byte // un-escaped string value (isStr)
-	raw []byte // raw token for numbers / booleans / nested objects
+	key   string
+	str   []byte // un-escaped string value (isStr)
+	raw   []byte // raw token for numbers / booleans / nested objects
 	isStr bool
 }
 
